@@ -402,8 +402,8 @@ def judge_junk(case):
 CHECKS = [
     Check("fold", judge_fold, strategy=lambda tier: fold_case(), quick=2500, thorough=80000,
           rule="0-6 element recipes (callables, Variable, Filter, Slice, Count, RunIf, Reverse, End, Print, accumulators, nested Sequence, Split, "
-               "elements whose run attribute is None) x flows of 0-8 bare / (data, context) values as list, tuple or iterator x a random bracketing "
-               "(depth<=2, empty groups) x Source with a callable / iterable / SourceEl first element. "
+               "elements whose run attribute is None, classes used as conversion elements, Variables with data attributes named like methods) x flows of 0-8 bare / (data, context) values as list, tuple or iterator x a random bracketing "
+               "(depth<=2, empty groups) x Source with a callable / iterable / SourceEl first element or a Source holding the first k elements as its head; Splits also with their branches given as Sequences, flat and regrouped. "
                "Non-trivial = >=2 elements of >=2 kinds on a non-empty flow, or bracketing depth>=2."),
     Check("identity", judge_identity, strategy=lambda tier: st.fixed_dictionaries({"flow": R.flows(8)}),
           quick=200, thorough=2000,
